@@ -5,6 +5,8 @@
 (* A record of VERIF_DATA is the event log of ONE decoder configuration    *)
 (* (decoder class + parameters, code, noise model, error rate):            *)
 (*   construct events  [kind |-> "construct", obj, raised]                 *)
+(*   interrupted calls [kind |-> "interrupted", obj, syn, syn_intact,      *)
+(*                      tables_intact] (decode ended by KeyboardInterrupt) *)
 (*   decode events     [kind |-> "decode", obj, syn, corr, len, binary,    *)
 (*                      raised, syn_intact, tables_intact]                 *)
 (* `obj` names the decoder object (several objects of the same             *)
@@ -64,6 +66,12 @@ FailedEvent(r, e, seenBefore, previous) ==
        \* building a decoder reads the channel (matching weights, priors): it
        \* must leave the model's tables exactly as they were
        \cup (IF e.raised # "" \/ e.tables_intact THEN {} ELSE {"noise_tables_not_modified"})
+  ELSE IF e.kind = "interrupted"
+  \* a decode call ended by a KeyboardInterrupt (Ctrl-C during a trial): it returns
+  \* nothing, but what it was given stays as it was - and the calls that follow are
+  \* judged like any others (purity: the interrupted call is part of the history)
+  THEN (IF e.syn_intact THEN {} ELSE {"caller_syndrome_not_modified"})
+       \cup (IF e.tables_intact THEN {} ELSE {"noise_tables_not_modified"})
   ELSE
      (IF e.raised = "" THEN {} ELSE {"decode_raised"})
 \cup (IF e.raised # "" \/ (e.len = 2 * r.n /\ e.binary) THEN {} ELSE {"binary_vector_of_length_2n"})
